@@ -140,6 +140,10 @@ class FakeSelect:
         if env.select_budget <= 0:
             raise StopLoop()
         env.select_budget -= 1
+        hook = getattr(env, "during_select", None)
+        if hook is not None:
+            env.during_select = None
+            hook()              # something another thread does while the loop sleeps in select()
         env.last_rlist = list(r)
         env.last_wlist = list(w)
         rr = [s for s in r if (s == env.pipe_r and env.pipe_buf) or
